@@ -190,11 +190,11 @@ harness!(none, 40, c04_generic_dna_c16_l17, fresh_body::<Dna, U16, _, 17>(&gener
 harness!(none, 70, c04_generic_dna_c32_l33, fresh_body::<Dna, U32, _, 33>(&generic()));
 //@ C04 quick 800 generic stripe, protein, C=4, L=5
 harness!(none, 40, c04_generic_protein_c4_l5, fresh_body::<Protein, U4, _, 5>(&generic()));
-//@ C04 thorough 1800 generic stripe, DNA, C=32, L=65
+//@ C04 quick 800 generic stripe, DNA, C=32, L=65
 harness!(none, 100, c04_generic_dna_c32_l65, fresh_body::<Dna, U32, _, 65>(&generic()));
-//@ C04 thorough 1800 generic stripe, protein, C=32, L=33
+//@ C04 quick 800 generic stripe, protein, C=32, L=33
 harness!(none, 70, c04_generic_protein_c32_l33, fresh_body::<Protein, U32, _, 33>(&generic()));
-//@ C04 thorough 1800 generic stripe, DNA, C=16, L=32
+//@ C04 quick 800 generic stripe, DNA, C=16, L=32
 harness!(none, 40, c04_generic_dna_c16_l32, fresh_body::<Dna, U16, _, 32>(&generic()));
 
 // --- generic, histories (C=4: R=2 or 3) -----------------------------------------------------
@@ -208,12 +208,12 @@ harness!(none, 40, c04_generic_hist_c4_l4_w0_w2_l0, history_body::<Dna, U4, _, 4
 harness!(none, 40, c04_generic_hist_c4_l8_w1_w0_l5, history_body::<Dna, U4, _, 8, 1, 0, 5>(&generic()));
 //@ C04 quick 800 generic: stripe L=32 (C=16, R=2), configure_wrap(2), stripe_into L=17 (whole padding columns), configure_wrap(2)
 harness!(none, 40, c04_generic_hist_c16_l32_w2_w0_l17, history_body::<Dna, U16, _, 32, 2, 0, 17>(&generic()));
-//@ C04 thorough 1800 generic: protein C=2 L=5 (R=3), wrap 2 then 5, reuse with L=6
+//@ C04 quick 800 generic: protein C=2 L=5 (R=3), wrap 2 then 5, reuse with L=6
 harness!(none, 40, c04_generic_hist_prot_c2_l5_w2_w5_l6, history_body::<Protein, U2, _, 5, 2, 5, 6>(&generic()));
 
 //@ C04 quick 800 count_symbols / count_symbol on a 32-lane striped DNA sequence with 3 look-ahead rows (L=40, 6 symbolic symbols)
 harness!(none, 70, c04_count_dna_c32, count_body::<Dna>());
-//@ C04 thorough 3600 count_symbols / count_symbol on a 32-lane striped protein sequence with 3 look-ahead rows
+//@ C04 quick 800 count_symbols / count_symbol on a 32-lane striped protein sequence with 3 look-ahead rows
 harness!(none, 70, c04_count_protein_c32, count_body::<Protein>());
 
 // --- AVX2 (scalar path for L < 1024; 32x32 transpose block from L >= 993) ---------------------
@@ -229,13 +229,13 @@ harness!(avx2, 70, c04_avx2_dna_l33, fresh_body::<Dna, U32, _, 33>(&avx2()));
 harness!(avx2, 70, c04_avx2_protein_l33, fresh_body::<Protein, U32, _, 33>(&avx2()));
 //@ C04 quick 800 AVX2: stripe L=64 (R=2, full), configure_wrap(1), configure_wrap(3), stripe_into L=33 (whole padding columns over stale symbols), configure_wrap(1)
 harness!(avx2, 100, c04_avx2_hist_l64_w1_w3_l33, history_body::<Dna, U32, _, 64, 1, 3, 33>(&avx2()));
-//@ C04 thorough 5400 AVX2: stripe L=33 (R=2), configure_wrap(1), configure_wrap(3), stripe_into L=65, configure_wrap(1)
+//@ C04 quick 800 AVX2: stripe L=33 (R=2), configure_wrap(1), configure_wrap(3), stripe_into L=65, configure_wrap(1)
 harness!(avx2, 100, c04_avx2_hist_l33_w1_w3_l65, history_body::<Dna, U32, _, 33, 1, 3, 65>(&avx2()));
 //@ C04 quick 800 dispatcher (SSE2 arm = generic striping), C=32: stripe L=64, stripe_into L=33 into the same buffer
 harness!(avx2, 100, c04_dispatch_sse2_hist_l64_l33, dispatch_history_body::<Dna, 64, 33>(Dispatch::Sse2));
-//@ C04 thorough 1800 AVX2: stripe L=65 (R=3), configure_wrap(4), configure_wrap(2), stripe_into L=0
+//@ C04 quick 800 AVX2: stripe L=65 (R=3), configure_wrap(4), configure_wrap(2), stripe_into L=0
 harness!(avx2, 100, c04_avx2_hist_l65_w4_w2_l0, history_body::<Dna, U32, _, 65, 4, 2, 0>(&avx2()));
-//@ C04 thorough 1800 AVX2 stripe, DNA, L=65
+//@ C04 quick 800 AVX2 stripe, DNA, L=65
 harness!(avx2, 100, c04_avx2_dna_l65, fresh_body::<Dna, U32, _, 65>(&avx2()));
 
 // --- dispatcher arms ---------------------------------------------------------------------------
@@ -243,5 +243,5 @@ harness!(avx2, 100, c04_avx2_dna_l65, fresh_body::<Dna, U32, _, 65>(&avx2()));
 harness!(avx2, 70, c04_dispatch_avx2_dna_l33, dispatch_body::<Dna, 33, 2>(Dispatch::Avx2));
 //@ C04 quick 800 EncodedSequence::to_striped via dispatcher, SSE2 arm (generic striping), DNA L=33, configure_wrap(2)
 harness!(avx2, 70, c04_dispatch_sse2_dna_l33, dispatch_body::<Dna, 33, 2>(Dispatch::Sse2));
-//@ C04 thorough 1800 EncodedSequence::to_striped via dispatcher, generic arm, protein L=34, configure_wrap(1)
+//@ C04 quick 800 EncodedSequence::to_striped via dispatcher, generic arm, protein L=34, configure_wrap(1)
 harness!(avx2, 70, c04_dispatch_generic_protein_l34, dispatch_body::<Protein, 34, 1>(Dispatch::Generic));
